@@ -12,6 +12,7 @@ Exec *g_exec = nullptr;
 #include "exec_ops2.inc"
 
 static const long tmr_period_ms[] = {1, 2, 3, 5, 20, 50};
+static int registry_task_fn(void *p) { (void)p; return 0; }
 
 void Exec::payload_free_hook(void *p) {
     Exec *E = g_exec; if (!E) return;
@@ -165,12 +166,14 @@ void Exec::do_op3(const Op &op, bool top, Inst *S, Inst *T, bool deny) {
             if (elsewhere) { counters_skipped++; break; }
             bool present = S->fds.count(idx);
             long b = op.b;
+            // what "the same key" means for a duplicated descriptor is not specified (the source is keyed by the duplicate's number)
+            if (present && (S->fds[idx].dup || (b & 2))) { counters_skipped++; break; }
             if (present && (b & 3)) b &= ~3L; // never hand ownership of a number that is refused
             int lf = 0; if (b & 1) lf |= M_SRC_FD_AUTOCLOSE; if (b & 2) lf |= M_SRC_DUP; if (b & 4) lf |= M_SRC_ONESHOT;
             long token = 0x2000 + next_token++;
             int r = m_mod_src_register_fd(handle(S), fd, (m_src_flags)lf, (void *)token);
             if (!legal) { RET_ILLEGAL("C01.2", "m_mod_src_register_fd", r); break; }
-            if (present) { if (r != -EEXIST) fail("C09.1", "registering descriptor source " + std::to_string(fd) + " twice returned " + std::to_string(r) + ", expected -EEXIST"); nt["C09"] = true; break; }
+            if (present) { if (r != -EEXIST) fail("C09.1", "registering descriptor source " + std::to_string(fd) + " twice returned " + std::to_string(r) + ", expected -EEXIST"); if (S->fds.size() >= 2) nt["C09"] = true; cls.insert("duplicate-source-registration"); break; }
             RET_LEGAL("C09.1", "m_mod_src_register_fd", r);
             FdSrc s{idx, fd, (bool)(b & 1), (bool)(b & 2), (bool)(b & 4), token};
             S->fds[idx] = s;
@@ -184,7 +187,8 @@ void Exec::do_op3(const Op &op, bool top, Inst *S, Inst *T, bool deny) {
             if (present) {
                 RET_LEGAL("C09.2", "m_mod_src_deregister_fd of a registered descriptor", r);
                 release_fd_src(S->fds[idx]); // the library owns and closes it now
-                S->fds.erase(idx); nt["C09"] = true;
+                if (S->fds.size() >= 2) nt["C09"] = true;
+                S->fds.erase(idx);
             } else RET_ILLEGAL("C09.3", "m_mod_src_deregister_fd of a descriptor that is not registered", r);
         }
         break; }
@@ -211,15 +215,61 @@ void Exec::do_op3(const Op &op, bool top, Inst *S, Inst *T, bool deny) {
             long token = 0x3000 + next_token++;
             int r = m_mod_src_register_tmr(handle(S), &its, (m_src_flags)lf, (void *)token);
             if (!legal) { RET_ILLEGAL("C01.2", "m_mod_src_register_tmr", r); break; }
-            if (present) { if (r != -EEXIST) fail("C09.1", "registering a timer with period " + std::to_string(tmr_period_ms[idx]) + "ms twice returned " + std::to_string(r) + ", expected -EEXIST"); nt["C09"] = true; break; }
+            if (present) { if (r != -EEXIST) fail("C09.1", "registering a timer with period " + std::to_string(tmr_period_ms[idx]) + "ms twice returned " + std::to_string(r) + ", expected -EEXIST"); if (S->tmrs.size() >= 2) nt["C09"] = true; cls.insert("duplicate-source-registration"); break; }
             RET_LEGAL("C09.1", "m_mod_src_register_tmr", r);
             S->tmrs[idx] = TmrSrc{idx, (bool)(op.b & 4), pr, token};
             cls.insert("timer-source"); nt["C20"] = true;
         } else {
             int r = m_mod_src_deregister_tmr(handle(S), &its);
             if (!legal) { RET_ILLEGAL("C01.2", "m_mod_src_deregister_tmr", r); break; }
-            if (present) { RET_LEGAL("C09.2", "m_mod_src_deregister_tmr of a registered timer", r); S->tmrs.erase(idx); nt["C09"] = true; }
+            if (present) { RET_LEGAL("C09.2", "m_mod_src_deregister_tmr of a registered timer", r); if (S->tmrs.size() >= 2) nt["C09"] = true; S->tmrs.erase(idx); }
             else RET_ILLEGAL("C09.3", "m_mod_src_deregister_tmr of a timer that is not registered", r);
+        }
+        break; }
+    case prog::O_SRC_REG: case prog::O_SRC_DEREG: {
+        // registry profile: arbitrary keys of every kind on a module that never starts (no kernel object is created for an IDLE module)
+        observe_pre();
+        if (!S || !handle(S)) break;
+        if (skip_if_deny()) break;
+        if (P.profile != "registry" || S->state != M_MOD_IDLE) { counters_skipped++; break; }
+        int kind = (int)op.a; long ki = op.b;
+        if (kind < M_SRC_TYPE_FD || kind > M_SRC_TYPE_THRESH) break;
+        bool invalid = ki >= 90;
+        ki = invalid ? 90 : ((ki % 12) + 12) % 12;
+        static const int fds[12] = {3, 7, 100, 65536, 2147483647, 1 << 20, 12345, 5, 65537, 1 << 16 | 3, 4, 9};
+        static const uint64_t nss[12] = {1, 2, 1000, 1000000, 1000000000ULL, 1000000001ULL, 1ULL << 32, (1ULL << 32) + 1, (1ULL << 33) + 1, 1ULL << 63, (1ULL << 63) + (1ULL << 32), 5000000000ULL};
+        static const unsigned sgs[12] = {1, 2, 10, 12, 34, 64, 15, 17, 3, 35, 50, 63};
+        static const std::string long_path = "/" + std::string(300, 'p');
+        static const char *paths[12] = {"/tmp", "/tmp/", "/", "a", "/nonexistent/x", "/tmp/a", long_path.c_str(), "./rel", "/tmp/b", "b", "/tmp/a/", "A"};
+        static const pid_t pids[12] = {1, 2, 4242, 2147483647, 65536, 65537, 99999, 12, 1 << 20, 3, 1000000, 77};
+        static const int tids[12] = {0, 1, -1, 2147483647, (int)0x80000000, 65536, 7, 1 << 30, -65536, 2, 100, -2};
+        static const m_src_thresh_t thrs[12] = {{1, 0}, {0, 0.5}, {1, 0.5}, {2, 0.5}, {0, 1e12}, {1000000000000000ULL, 0}, {1, 1.0}, {1, 2.0}, {2, 1.0}, {3, 0}, {0, 3.0}, {0, 0.25}};
+        bool reg = op.code == prog::O_SRC_REG;
+        int r = 0;
+        long token = 0x4000 + next_token++;
+        switch (kind) {
+        case M_SRC_TYPE_FD: { int fd = invalid ? -1 : fds[ki]; r = reg ? m_mod_src_register_fd(handle(S), fd, (m_src_flags)0, (void *)token) : m_mod_src_deregister_fd(handle(S), fd); break; }
+        case M_SRC_TYPE_TMR: { m_src_tmr_t t = {CLOCK_MONOTONIC, invalid ? 0 : nss[ki]}; r = reg ? m_mod_src_register_tmr(handle(S), &t, (m_src_flags)0, (void *)token) : m_mod_src_deregister_tmr(handle(S), &t); break; }
+        case M_SRC_TYPE_SGN: { m_src_sgn_t t = {invalid ? 0 : sgs[ki]}; r = reg ? m_mod_src_register_sgn(handle(S), &t, (m_src_flags)0, (void *)token) : m_mod_src_deregister_sgn(handle(S), &t); break; }
+        case M_SRC_TYPE_PATH: { m_src_path_t t = {invalid ? "" : paths[ki], 2}; r = reg ? m_mod_src_register_path(handle(S), &t, (m_src_flags)0, (void *)token) : m_mod_src_deregister_path(handle(S), &t); break; }
+        case M_SRC_TYPE_PID: { m_src_pid_t t = {invalid ? 0 : pids[ki], 0}; r = reg ? m_mod_src_register_pid(handle(S), &t, (m_src_flags)0, (void *)token) : m_mod_src_deregister_pid(handle(S), &t); break; }
+        case M_SRC_TYPE_TASK: { m_src_task_t t = {invalid ? 1 : tids[ki], invalid ? nullptr : registry_task_fn}; r = reg ? m_mod_src_register_task(handle(S), &t, (m_src_flags)0, (void *)token) : m_mod_src_deregister_task(handle(S), &t); break; }
+        case M_SRC_TYPE_THRESH: { m_src_thresh_t t = invalid ? m_src_thresh_t{0, 0} : thrs[ki]; r = reg ? m_mod_src_register_thresh(handle(S), &t, (m_src_flags)0, (void *)token) : m_mod_src_deregister_thresh(handle(S), &t); break; }
+        }
+        auto key = std::make_pair(kind, ki);
+        bool present = S->other_srcs.count(key);
+        size_t of_kind = 0; for (auto &k : S->other_srcs) if (k.first == kind) of_kind++;
+        std::string what = std::string(reg ? "registering" : "deregistering") + " source kind " + std::to_string(kind) + " key #" + std::to_string(ki);
+        cls.insert("registry-kind-" + std::to_string(kind));
+        if (!mod_ok(this, S)) { if (r >= 0) fail("C01.2", what + " on a module that cannot be operated returned " + std::to_string(r)); break; }
+        if (invalid) { if (r == 0) fail("C09.4", what + " with invalid parameters returned 0"); cls.insert("invalid-source-parameters"); break; }
+        if (kind == M_SRC_TYPE_TASK && !reg) { if (r >= 0) fail("C09.6", "task sources cannot be deregistered, but m_mod_src_deregister_task returned " + std::to_string(r)); break; }
+        if (reg) {
+            if (present) { if (r != -EEXIST) fail("C09.1", what + " which is already registered returned " + std::to_string(r) + ", expected -EEXIST"); if (of_kind >= 2) nt["C09"] = true; cls.insert("duplicate-source-registration"); }
+            else { if (r != 0) fail("C09.1", what + " (new key) returned " + std::to_string(r)); else S->other_srcs.insert(key); }
+        } else {
+            if (present) { if (r != 0) fail("C09.2", what + " which is registered returned " + std::to_string(r)); else { S->other_srcs.erase(key); if (of_kind >= 2) nt["C09"] = true; } }
+            else if (r >= 0) fail("C09.3", what + " which is not registered returned " + std::to_string(r));
         }
         break; }
     case prog::O_SET_TB: {
